@@ -96,14 +96,56 @@ def units():
     U.fn("seq3_begin", ensures={"begin_is_index_zero": "RET.current_index == 0 && RET.dims.dims.x == $0->dims.x && RET.dims.dims.y == $0->dims.y && RET.dims.dims.z == $0->dims.z"})
     U.fn("seq3_dimensions", ensures={"dimensions_returns_extent": "RET.x == $0->dims.x && RET.y == $0->dims.y && RET.z == $0->dims.z"})
     U.fn("seq3_ctor", assigns=["*$0"], noalias=True, ensures={"ctor_stores_extent": "$0->dims.x == $1->x && $0->dims.y == $1->y && $0->dims.z == $1->z"})
-    return [U]
+    return [U, adaptors_unit()]
+
+
+ASTUBS = """
+/* interface stubs for the pure virtuals of the UNDERLYING Array3D: get records which array and which cell it was asked for and
+ * returns the harness-chosen cell value; size returns the harness-chosen extent */
+void *g_asked_self; int g_ax, g_ay, g_az; unsigned g_get_calls; float g_cell_f; int g_cell_i; vec3i g_dims;
+float a3f_get_stub(Array3Df *self, vec3i *w) { g_asked_self = self; g_ax = w->x; g_ay = w->y; g_az = w->z; g_get_calls++; return g_cell_f; }
+int a3i_get_stub(Array3Di *self, vec3i *w) { g_asked_self = self; g_ax = w->x; g_ay = w->y; g_az = w->z; g_get_calls++; return g_cell_i; }
+vec3i a3f_size_stub(Array3Df *self) { return g_dims; }
+"""
+
+
+def adaptors_unit():
+    """which underlying cell each Array3D adaptor reads (the underlying array is an interface stub that records the request)"""
+    A = Unit("c17_adaptors", "units/c17_adaptors.cpp", stubs=ASTUBS, opts=dict(tracked_vec=True, bounded_vec=3, virtual_final=["IndexShiftedArray3D", "SubBoxArray3D", "Array3DAccessor", "MultiSliceArray3D"], stub_bodies=["a3f_get_stub", "a3i_get_stub", "a3f_size_stub"],
+             virtual_models={"rkcommon::array3D::Array3D<float>::get": "a3f_get_stub", "rkcommon::array3D::Array3D<int>::get": "a3i_get_stub", "rkcommon::array3D::Array3D<float>::size": "a3f_size_stub"}))
+    A.stub("Array3D<T>::get / size of the underlying array", "interface stubs: the adaptor's request (array, cell) is recorded in ghost state; the value returned is arbitrary")
+    base = "  static Array3Df the_under; static Array3Di the_under_i; g_get_calls = 0; g_cell_f = nondet_float(); g_cell_i = nondet_int(); g_dims.x = nondet_int(); g_dims.y = nondet_int(); g_dims.z = nondet_int();\n  __CPROVER_assume(g_dims.x >= 1 && g_dims.y >= 1 && g_dims.z >= 1 && g_dims.x <= 1000000 && g_dims.y <= 1000000 && g_dims.z <= 1000000);\n"
+    GA = ["g_asked_self", "g_ax", "g_ay", "g_az", "g_get_calls", "__verif_exc"]
+    REQ = ["g_get_calls == 0", "__verif_exc == 0", "g_dims.x >= 1 && g_dims.y >= 1 && g_dims.z >= 1 && g_dims.x <= 1000000 && g_dims.y <= 1000000 && g_dims.z <= 1000000"]
+    INSIDE = "$1->x >= 0 && $1->x < g_dims.x && $1->y >= 0 && $1->y < g_dims.y && $1->z >= 0 && $1->z < g_dims.z"
+    # shifted: cell (where + shift) wrapped into the extent
+    W = lambda c: "((($1->%s + $0->shift.%s) %% g_dims.%s + g_dims.%s) %% g_dims.%s)" % (c, c, c, c, c)
+    A.fn("sh_get", pre_call=base + "  o_@0.actual.p = &the_under; o_@0.actual.c = 0;\n", requires=REQ + [INSIDE, "$0->shift.x >= -g_dims.x && $0->shift.x <= g_dims.x && $0->shift.y >= -g_dims.y && $0->shift.y <= g_dims.y && $0->shift.z >= -g_dims.z && $0->shift.z <= g_dims.z", "$0->actual.p != 0"],
+         inline=["sh_size"], solver=["--sat-solver", "cadical"], timeout=900, assigns=GA, ensures={"shifted_get_reads_the_cell_shifted_and_wrapped_into_the_extent_of_the_underlying_array":
+                              "g_get_calls == 1 && g_asked_self == $0->actual.p && g_ax == %s && g_ay == %s && g_az == %s && FEQ(RET, g_cell_f)" % (W("x"), W("y"), W("z"))})
+    A.fn("sh_size", pre_call=base + "  o_@0.actual.p = &the_under; o_@0.actual.c = 0;\n", requires=REQ + ["$0->actual.p != 0"], assigns=GA, ensures={"shifted_size_is_the_underlying_size": "RET.x == g_dims.x && RET.y == g_dims.y && RET.z == g_dims.z"})
+    A.fn("sb_get", pre_call=base + "  o_@0.actual.p = &the_under; o_@0.actual.c = 0;\n", requires=REQ + ["$0->actual.p != 0", "$1->x >= 0 && $1->y >= 0 && $1->z >= 0 && $0->clipBox.lower.x >= 0 && $0->clipBox.lower.y >= 0 && $0->clipBox.lower.z >= 0",
+                                                                                                 "$1->x <= 1000000 && $1->y <= 1000000 && $1->z <= 1000000 && $0->clipBox.lower.x <= 1000000 && $0->clipBox.lower.y <= 1000000 && $0->clipBox.lower.z <= 1000000"],
+         assigns=GA, ensures={"sub_box_get_reads_the_cell_offset_by_the_box_origin":
+                              "g_get_calls == 1 && g_asked_self == $0->actual.p && g_ax == $1->x + $0->clipBox.lower.x && g_ay == $1->y + $0->clipBox.lower.y && g_az == $1->z + $0->clipBox.lower.z && FEQ(RET, g_cell_f)"})
+    A.fn("sb_size", pre_call=base, requires=REQ + ["$0->clipBox.lower.x >= 0 && $0->clipBox.lower.y >= 0 && $0->clipBox.lower.z >= 0 && $0->clipBox.upper.x >= $0->clipBox.lower.x && $0->clipBox.upper.y >= $0->clipBox.lower.y && $0->clipBox.upper.z >= $0->clipBox.lower.z"],
+         assigns=GA, ensures={"sub_box_size_is_the_box_size": "RET.x == $0->clipBox.upper.x - $0->clipBox.lower.x && RET.y == $0->clipBox.upper.y - $0->clipBox.lower.y && RET.z == $0->clipBox.upper.z - $0->clipBox.lower.z"})
+    A.fn("ac_get", pre_call=base + "  o_@0.actual.p = &the_under_i; o_@0.actual.c = 0;\n", requires=REQ + ["$0->actual.p != 0"], assigns=GA,
+         ensures={"accessor_get_reads_the_same_cell_and_converts_the_value": "g_get_calls == 1 && g_asked_self == $0->actual.p && g_ax == $1->x && g_ay == $1->y && g_az == $1->z && FEQ(RET, (float)g_cell_i)"})
+    ms = base + "  static Array3Df the_s0, the_s1, the_s2; unsigned long in_ns = nondet_ulong(); __CPROVER_assume(in_ns >= 1 && in_ns <= 3); o_@0.slice.n = in_ns; o_@0.slice.cap = 3;\n  o_@0.slice.b[0].p = &the_s0; o_@0.slice.b[1].p = &the_s1; o_@0.slice.b[2].p = &the_s2; o_@0.slice.b[0].c = 0; o_@0.slice.b[1].c = 0; o_@0.slice.b[2].c = 0;\n"
+    MSREQ = REQ + ["$0->slice.n >= 1 && $0->slice.n <= 3 && $0->slice.b[0].p != 0 && $0->slice.b[1].p != 0 && $0->slice.b[2].p != 0"]
+    ZC = "($1->z < 0 ? 0 : ($1->z > (int)$0->slice.n - 1 ? (int)$0->slice.n - 1 : $1->z))"
+    A.fn("ms_get", pre_call=ms, requires=MSREQ, assigns=GA, unwind=5, inline=["ms_size"],
+         ensures={"multi_slice_get_reads_cell_x_y_0_of_the_slice_selected_by_clamped_z": "g_get_calls == 1 && g_asked_self == $0->slice.b[%s].p && g_ax == $1->x && g_ay == $1->y && g_az == 0 && FEQ(RET, g_cell_f)" % ZC})
+    A.fn("ms_size", pre_call=ms, requires=MSREQ, assigns=GA, unwind=5, ensures={"multi_slice_size_is_slice0_extent_by_number_of_slices": "RET.x == g_dims.x && RET.y == g_dims.y && RET.z == (int)$0->slice.n"})
+    return A
 
 
 META = dict(
     level="proof",
-    level_text="flatten/reshape (2-D, 3-D) and longIndex/coordsOf are proved mutually inverse on coordinates inside the extent and on [0,total), flatten < total, for EVERY extent (unbounded, z3 over the integers on VCs generated from the extracted code), together with the obligation that every intermediate value and every conversion fits its machine type (so machine arithmetic equals mathematical arithmetic: 'computed in 64 bits without overflow' is itself proved, and e.g. a 32-bit temporary for a row number is refuted). Iterator operations (++, ==, jump_to, current, begin, dimensions) have bit-precise CBMC contracts.",
+    level_text="flatten/reshape (2-D, 3-D) and longIndex/coordsOf are proved mutually inverse on coordinates inside the extent and on [0,total), flatten < total, for EVERY extent (unbounded, z3 over the integers on VCs generated from the extracted code), together with the obligation that every intermediate value and every conversion fits its machine type (so machine arithmetic equals mathematical arithmetic: 'computed in 64 bits without overflow' is itself proved, and e.g. a 32-bit temporary for a row number is refuted). Iterator operations (++, ==, jump_to, current, begin, dimensions) have bit-precise CBMC contracts. The shifted, sub-box, accessor and multi-slice adaptors (unit c17_adaptors) are proved, against a recording interface stub of the underlying Array3D, to ask exactly one underlying array for exactly the cell their definition names (shift wrapped into the extent; offset by the box origin; same cell with value conversion; cell (x,y,0) of the slice selected by the clamped z) and to return its value.",
     level_note="Trusted: clang AST, cxx2c, mathvc evaluator, z3; CBMC for the iterator contracts. NOT yet under contract: for_each loops / iteration order, ActualArray3D get/set memory access, the shifted / sub-box / accessor / multi-slice adaptors (virtual dispatch through shared_ptr) and getValueRange.",
     assumptions=["extent with total < 2^64 (multidim_index_sequence), positive int extents (array3D)"],
-    unverified=["for_each visiting order and exactly-once", "ActualArray3D::get/set cell contents", "IndexShifted/SubBox/Accessor/MultiSlice/Repeater adaptors", "getValueRange"],
+    unverified=["for_each visiting order and exactly-once", "ActualArray3D::get/set cell contents", "Array3DRepeater (mirrored repetition; not named by the property)", "adaptor numElements", "getValueRange"],
     trusted_extra=["lib/mathvc.py symbolic evaluator", "z3 5.1.0"],
 )
